@@ -31,19 +31,28 @@ type KnownFinding struct {
 	What string `json:"what"`
 }
 
+// loadKnown reads known_findings.json and known_findings.d/*.json (same format).
 func loadKnown() []KnownFinding {
-	b, err := os.ReadFile(filepath.Join(VerifDir, "known_findings.json"))
-	if err != nil {
-		return nil
+	paths := []string{filepath.Join(VerifDir, "known_findings.json")}
+	more, _ := filepath.Glob(filepath.Join(VerifDir, "known_findings.d", "*.json"))
+	sort.Strings(more)
+	paths = append(paths, more...)
+	var all []KnownFinding
+	for _, path := range paths {
+		b, err := os.ReadFile(path)
+		if err != nil {
+			continue
+		}
+		var doc struct {
+			Findings []KnownFinding `json:"findings"`
+		}
+		if err := json.Unmarshal(b, &doc); err != nil {
+			fmt.Fprintf(os.Stderr, "%s: %v\n", path, err)
+			continue
+		}
+		all = append(all, doc.Findings...)
 	}
-	var doc struct {
-		Findings []KnownFinding `json:"findings"`
-	}
-	if err := json.Unmarshal(b, &doc); err != nil {
-		fmt.Fprintf(os.Stderr, "known_findings.json: %v\n", err)
-		return nil
-	}
-	return doc.Findings
+	return all
 }
 
 func envSeed() int64 {
